@@ -28,10 +28,10 @@ STR_EDITS = ["drop_last", "append0", "append_space", "prepend_space", "upper", "
              "double", "empty", "drop_first", "swapcase_first_letter"]
 TIME_EDITS = ["month13", "day32", "hour25", "min60", "noZ", "offset", "space_for_T", "lower", "feb30", "short_year",
               "fraction", "date_only", "trailing_junk", "sec60", "year0", "unpadded", "underscore_for_T", "newline_for_T", "week_date",
-              "dot_seconds", "offset_before_Z", "ordinal_date", "comma_fraction"]
+              "dot_seconds", "offset_before_Z", "ordinal_date", "comma_fraction", "fullwidth_digit"]
 INT_EDITS = ["minus1", "plus1", "zero", "neg", "as_float", "as_str", "as_true", "plus_half", "huge", "as_list"]
 LIST_EDITS = ["empty", "dup_first", "append_junk", "append_upper_first", "reverse", "drop_last", "append_none",
-              "dup_first_variant", "nest"]
+              "dup_first_variant", "nest", "dup_last_at_front", "dup_first_adjacent", "dup_middle_at_end"]
 DICT_EDITS = ["empty", "extra_field", "dup_key_space", "dup_key_upper", "drop_first", "extra_none_field", "to_list"]
 
 OPS = (["delete"] + ["replace:%d" % i for i in range(len(REPLACEMENTS))] + ["str:" + e for e in STR_EDITS]
@@ -85,7 +85,7 @@ def _edit(node, op):
                 "week_date": "%s-W28-2T%s:%s:%sZ" % (y, h, mi, s), "dot_seconds": "%s-%s-%sT%s:%s.%sZ" % (y, mo, d, h, mi, s),
                 "offset_before_Z": "%s-%s-%sT%s+01:00Z" % (y, mo, d, h), "ordinal_date": "%s-%s%sT%s:%s:%sZZ"[:0] + "%s-194T%s:%s:%s.0Z" % (y, h, mi, s),
                 "comma_fraction": "%s-%s-%sT%s:%s:%s,5Z"[:0] + "%s-%s-%sT%s:%s,%sZ" % (y, mo, d, h, mi, s), "unpadded": "%d-%d-%dT%d:%d:%dZ" % tuple(
-                    int(x) for x in (y, mo, d, h, mi, s))}.get(e)
+                    int(x) for x in (y, mo, d, h, mi, s)), "fullwidth_digit": f(mo=chr(0xFF10 + int(mo[0])) + mo[1])}.get(e)
     if kind == "int" and type(node) is int:
         return {"minus1": node - 1, "plus1": node + 1, "zero": 0, "neg": -node, "as_float": float(node) if abs(node) < 2 ** 53 else None,
                 "as_str": str(node), "as_true": True, "plus_half": node + 0.5 if abs(node) < 2 ** 50 else None,
@@ -105,6 +105,12 @@ def _edit(node, op):
             return None
         if e == "dup_first":
             return node + [copy.deepcopy(node[0])]
+        if e == "dup_last_at_front":
+            return [copy.deepcopy(node[-1])] + node
+        if e == "dup_first_adjacent":
+            return [copy.deepcopy(node[0])] + node
+        if e == "dup_middle_at_end":
+            return node + [copy.deepcopy(node[len(node) // 2])]
         if e == "drop_last":
             return node[:-1]
         if e == "append_upper_first" and type(node[0]) is str:
@@ -131,6 +137,19 @@ def _edit(node, op):
         if e == "drop_first":
             return {a: b for a, b in node.items() if a != k}
     return None
+
+
+def own_ops(node):
+    """the edits of the node's own kind (boundary edits of its grammar / structure), as opposed to the type-confusing replacements"""
+    if type(node) is int and type(node) is not bool:
+        return ["int:" + e for e in INT_EDITS]
+    if type(node) is str:
+        return (["time:" + e for e in TIME_EDITS] + ["str:" + e for e in STR_EDITS[:6]]) if _looks_like_time(node) else ["str:" + e for e in STR_EDITS]
+    if type(node) is list:
+        return ["list:" + e for e in LIST_EDITS]
+    if type(node) is dict:
+        return ["dict:" + e for e in DICT_EDITS]
+    return []
 
 
 INAPPLICABLE = type("Inapplicable", (), {"__repr__": lambda self: "INAPPLICABLE"})()
